@@ -70,7 +70,7 @@ def judge(ctx, cases):
             recs.append({"api": "jp.Script[%s data]" % name, "kind": kind, "locus": locus_str(loc, suffix),
                          "witness": dict({"script": ev["text"], "elem": show(ev["elem"]), "root": show(ev["root"])},
                                          **({"members k/j as": {"A": "Go structs / fixed-size arrays", "B": "pointers to structs / typed slices",
-                                                                  "C": "struct, and j = [that struct]"}[ev["flv"]]} if ev.get("flv") else {})),
+                                                                  "C": "struct, and j = [that struct]"}.get(ev["flv"], "containers below the element as " + ev["flv"][2:])} if ev.get("flv") else {})),
                          "case": case, "cid": ev.get("cid"), "sz": ev.get("sz"),
                          "detail": {"expected": m["exp"], "got": {0: "not selected", 1: "selected", 2: "panic"}.get(m["got"], m["got"]),
                                     "forms": [loc[3], loc[4]], "routes": sorted(m["as"]), "panic": m["m"] or None}})
@@ -96,6 +96,9 @@ def show(a):
     t = a["t"]
     if t == "null":
         return None
+    if t == "int" and "v" not in a:       # beyond 32 bits: decimal digits
+        d = a["dec"]
+        return int("".join(str(x) for x in d["digits"]) or "0") * 10 ** d["exp10"] * (-1 if d["neg"] else 1)
     if t in ("bool", "int"):
         return a["v"]
     if t == "flt":
